@@ -290,3 +290,66 @@ def replay_fn_padded(name, args, want):
     doc = "{{" + name + ":" + "|".join("{{pad|1=" + a + "}}" for a in args) + "}}"
     got = w.expand(doc)
     return ("Template:pad = ' {{{1}}} ': expand(" + repr(doc) + ")", got != want, f"result {got!r}, MediaWiki trims the expanded branch: {want!r}")
+
+
+# ---------------------------------------------------------------- automatic newline applies to the RESULT of an expansion
+NL_FIRST = ["*", "#", ":", ";", "{|", "a", " *"]
+NL_SHAPES = ["wrap", "default", "outer", "literal", "named", "fn"]
+
+
+def _nl(t: str) -> str:
+    return ("\n" + t) if (t[:1] in ("*", ";", ":", "#") or t[:2] == "{|") else t
+
+
+def _nl_case(shape: int, first: int, lead: bool):
+    """(templates, document, expected expansion, template_fn or None): the marker reaches the start of the expansion by parameter substitution, by a
+    default value, through a nested call, literally, through a named parameter, or from template_fn"""
+    v = NL_FIRST[first] + "z"
+    pre = "a" if lead else ""
+    kind = NL_SHAPES[shape]
+    if kind == "wrap":
+        return {"w": "{{{1}}}"}, pre + "{{w|" + v + "}}", pre + _nl(v), None
+    if kind == "default":
+        return {"d": "{{{x|" + v + "}}} tail"}, pre + "{{d}}", pre + _nl(v + " tail"), None
+    if kind == "outer":
+        return {"w": "{{{1}}}", "o": "{{w|{{{1}}}}}!"}, pre + "{{o|" + v + "}}", pre + _nl(_nl(v) + "!"), None
+    if kind == "literal":
+        return {"l": v + "{{{1|}}}"}, pre + "{{l}}", pre + _nl(v), None
+    if kind == "named":
+        return {"n": "{{{k}}}"}, pre + "{{n|k=" + v + "}}", pre + _nl(v.strip()), None
+    return {"f": "unused"}, pre + "{{f}}", pre + _nl(v), (lambda name, ht: v)
+
+
+def _nl_bad(shape: int, first: int, lead: bool):
+    if "|" in NL_FIRST[first] and NL_SHAPES[shape] not in ("literal", "fn"):
+        return ("(a table marker cannot be written inside an argument)", False, "")
+    tpl, doc, want, tf = _nl_case(shape, first, lead)
+    w = Wtp(quiet=True, quiet_output=True)
+    for k, b in tpl.items():
+        w.add_page("Template:" + k, 10, b)
+    w.start_page("T")
+    got = w.expand(doc, template_fn=tf)
+    lib = "; ".join(f"Template:{k} = {b!r}" for k, b in tpl.items())
+    return (f"{lib}: expand({doc!r}" + (", template_fn=<returns " + repr(NL_FIRST[first] + "z") + ">" if tf else "") + ")", got != want, f"result {got!r}, expected {want!r} (a result that starts with a list/table marker gets a newline prepended)")
+
+
+def _pick4(x, n: int) -> int:
+    for v in range(n):
+        if x == v:
+            return v
+    raise AssertionError("outside the precondition")
+
+
+def nl_result_ok(shape, first, lead) -> bool:
+    from crosshair.tracers import NoTracing, is_tracing
+
+    if is_tracing():
+        shape, first = _pick4(shape, len(NL_SHAPES)), _pick4(first, len(NL_FIRST))
+        lead = True if lead else False
+        with NoTracing():
+            return not _nl_bad(shape, first, lead)[1]
+    return not _nl_bad(shape, first, lead)[1]
+
+
+def replay_nl_result(shape, first, lead):
+    return _nl_bad(shape, first, lead)
